@@ -1835,6 +1835,29 @@ def stamp_fault_program(rng, pid, cfg):
     return {"id": pid, "cfg": cfg, "ops": ops, "fault": {"at": at, "k": rng.randrange(1, 5), "continue": True}, "origin": "stamps:fault"}
 
 
+def flush_fault_io_program(rng, pid, cfg, cs):
+    """file contents across a failed flush: data is written (the file grows, or is shortened), the flush that should store the entry hits
+    a transient storage error, the flush is repeated or the handle closed; a fresh handle must then read what was written (C02: a file
+    behaves as a byte array whatever happened to an earlier, reported, failure)"""
+    ops = [{"op": "create_file", "at": "", "path": "other.bin", "as": "o"}, {"op": "write_all", "h": "o", "pat": 9, "len": rng.choice([1, cs, cs + 3])},
+           {"op": "create_file", "at": "", "path": "data.bin", "as": "h"}]
+    if rng.random() < 0.5:       # the file already has flushed content
+        ops += [{"op": "write_all", "h": "h", "pat": 1, "len": rng.choice([5, cs, 2 * cs + 1])}, {"op": "flush", "h": "h"}]
+    kind = rng.choice(["grow", "grow", "shrink", "overwrite"])
+    if kind == "grow":
+        ops += [{"op": "seek", "h": "h", "from": "end", "off": 0}, {"op": "write_all", "h": "h", "pat": 2, "len": rng.choice([1, cs - 1, cs + 1, 2 * cs])}]
+    elif kind == "shrink":
+        ops += [{"op": "write_all", "h": "h", "pat": 2, "len": cs + 7}, {"op": "seek", "h": "h", "from": "start", "off": rng.choice([0, 3, cs])}, {"op": "truncate", "h": "h"}]
+    else:
+        ops += [{"op": "write_all", "h": "h", "pat": 2, "len": 9}, {"op": "seek", "h": "h", "from": "start", "off": 2}, {"op": "write_all", "h": "h", "pat": 3, "len": 4}]
+    at = len(ops)
+    ops += [{"op": "flush", "h": "h"}, {"op": rng.choice(["flush", "close"]), "h": "h"}, {"op": "close", "h": "h"}, {"op": "close", "h": "o"},
+            {"op": "open_file", "at": "", "path": "data.bin", "as": "r"}, {"op": "read_all", "h": "r", "len": 3 * cs + 9}, {"op": "seek", "h": "r", "from": "end", "off": 0},
+            {"op": "write_all", "h": "r", "pat": 4, "len": 3}, {"op": "seek", "h": "r", "from": "start", "off": 0}, {"op": "read_all", "h": "r", "len": 3 * cs + 20},
+            {"op": "close", "h": "r"}, {"op": "unmount"}]
+    return {"id": pid, "cfg": cfg, "ops": ops, "fault": {"at": at, "k": rng.randrange(1, 5), "continue": True}, "origin": "io:flush-fault"}
+
+
 def with_remounts(prog, rng, k=2):
     """insert k session ends (unmount / dropfs) at random positions: handles still open are closed by the executor"""
     ops = list(prog["ops"])
